@@ -473,8 +473,16 @@ def r5(ctx, R):
     param = next((p for p in f.params if "def" in p), None)
     ds = [v for st, v in defs_of(ctx, f, table) if ctx.m.enclosing_func(st) is f and not _inside_loop(ctx, st)]
     copy_ok = len(ds) == 1 and isinstance(ds[0], ast.Call) and ((isinstance(ds[0].func, ast.Attribute) and ds[0].func.attr == "copy" and unparse(ds[0].func.value) == param) or (isinstance(ds[0].func, ast.Name) and ds[0].func.id == "dict" and ds[0].args and unparse(ds[0].args[0]) == param) or unparse(ds[0]) in (f"copy.copy({param})", f"copy.deepcopy({param})"))
+    # any expression that builds a new dict from the parameter: {**p}, {k: v for k, v in p.items()}, dict(p.items())
+    if not copy_ok and len(ds) == 1:
+        v0 = ds[0]
+        fresh = (isinstance(v0, ast.Dict) and all(k is None for k in v0.keys) and any(unparse(x) == param for x in v0.values)) or (isinstance(v0, ast.DictComp) and any(unparse(g_.iter).startswith(param + ".") or unparse(g_.iter) == param for g_ in v0.generators)) or (isinstance(v0, ast.Call) and isinstance(v0.func, ast.Name) and v0.func.id == "dict" and v0.args and unparse(v0.args[0]).startswith(param))
+        if fresh:
+            copy_ok = True
     if copy_ok:
         R.ok("C08.R5", f.short, f"{table} starts as a copy of {param}", loc(f, ds[0]))
+    elif len(ds) != 1 or not (isinstance(ds[0], ast.Name) and ds[0].id == param):
+        R.undecided("C08.R5", f.short, f"{table} starts as a copy of {param}", loc(f, ds[0] if ds else f.node), "initialisation of the working table not recognised")
     else:
         R.violation("C08.R5", f.short, f"{table} starts as a copy of {param}", loc(f, ds[0] if ds else f.node), "the working table aliases the caller's table: #define lines of one file change the definitions every other file is preprocessed with")
     # recursive call: passes the table, takes the 4th element back
